@@ -418,7 +418,8 @@ impl Engine for C06 {
             bytes = damage_bucket_bytes(&bytes, d);
             st.class(&format!("damage_{}", bdamage_name(d)));
         }
-        std::fs::write(&bucket, &bytes).map_err(|e| e.to_string())?;
+        // (same-length damage keeps the file's modification time, as bit rot does)
+        crate::damage::write_keeping_mtime(&bucket, &bytes, bytes.len() == before.len());
         let survivors = reffmt::parse_bucket(&bytes).len();
         let nontrivial = survivors >= 1 && survivors < written.len();
         if bytes.iter().any(|&b| b >= 0x80) && std::str::from_utf8(&bytes).is_err() {
